@@ -16,7 +16,7 @@ from ..core import Stats, exc_site, exc_text
 from ..harness import Compiled, close, cs_compile, np_step
 from ..netgen import MODEL_PARAMS, all_specs, harness_specs
 from ..parallel import run_shards, shards_of
-from ..spec import NetSpec, build
+from ..spec import NetSpec, build, build_edited
 from .. import refmodel, valgen
 
 PROP = "C01"
@@ -97,12 +97,28 @@ def check_spec(spec: NetSpec, label, st: Stats, plan):
                 case = {"spec": spec.describe(), "config": label, "P": P, "val": {f"{k[0]}.{k[1]}": v for k, v in val.items()},
                         "engine": "numpy", "touch": True}
                 try:
-                    nxt, built, raw = np_step(spec, val, P, built=build(spec, touch=True))
+                    b = build(spec, touch=True)
+                    # ... and the same objects are first stepped from the OTHER base vector (start from a non-initial state)
+                    np_step(spec, valgen.base_vector(spec, 1 if vlabel == "base0" else 0), P, built=b)
+                    nxt, built, raw = np_step(spec, val, P, built=b)
                 except Exception as e:  # noqa: BLE001
                     problems.append((f"{PROP}/exception/{exc_site(e)}/{type(e).__name__}", f"numpy (lookups read during "
                                      f"construction): {exc_text(e)}", case))
                     break
                 compare(spec, nxt, refmodel.step(spec, val, P), st, "numpy (lookups read during construction)", case, problems)
+        # ---- the same network reached by editing a different, already stepped network in place
+        if full:
+            for (vlabel, val), emode in zip(list(valgen.vectors(spec, 0)) * 2, ("links", "attachments", "replace")):
+                st.inc("executions", 2)
+                case = {"spec": spec.describe(), "config": label, "P": P, "val": {f"{k[0]}.{k[1]}": v for k, v in val.items()},
+                        "engine": "numpy", "edited": emode}
+                try:
+                    nxt, built, raw = np_step(spec, val, P, built=build_edited(spec, P, emode))
+                except Exception as e:  # noqa: BLE001
+                    problems.append((f"{PROP}/exception/{exc_site(e)}/{type(e).__name__}", f"numpy (network edited in place after a "
+                                     f"step): {exc_text(e)}", case))
+                    break
+                compare(spec, nxt, refmodel.step(spec, val, P), st, "numpy (network edited in place after a step)", case, problems)
         # ---- compiled CasADi function -------------------------------------------------
         for sym in plan["cs_sym"]:
             st.inc("transitions", 2)
@@ -256,7 +272,8 @@ def replay(case):
     problems = []
     ref = refmodel.step(spec, val, P)
     if case.get("engine", "numpy") == "numpy":
-        nxt, built, raw = np_step(spec, val, P, built=build(spec, touch=bool(case.get("touch"))))
+        nxt, built, raw = np_step(spec, val, P, built=(build_edited(spec, P, case["edited"] if isinstance(case.get("edited"), str) else "links") if case.get("edited")
+                                                        else build(spec, touch=bool(case.get("touch")))))
     else:
         F, built, eng = cs_compile(spec, case["engine"], P, compact=0)
         nxt = Compiled(F, built).eval_many([val])[0]
